@@ -1,7 +1,7 @@
 (* C18: (1) the values selected downstream of the index pairs never come from row 0 / column 0 for a point outside;
         (2) the area's own pixel centres map back to their cell in every module (composition with the canonical map);
         (3) the independently written models of C01 (masked_ints), C07 (bucket) and C08 (ll2cr) are the same functions. *)
-From Coq Require Import Reals ZArith Lra Lia Bool List.
+From Coq Require Import Reals ZArith Lra Lia Bool List Arith.
 From Flocq Require Import Zaux Raux Generic_fmt Round_NE.
 From PR Require Import Base.Num Base.RNum Model.Grid Model.CellIndex Model.CellSample
      Proofs.Grid_real Proofs.C18_axis Proofs.C18_real.
@@ -167,3 +167,47 @@ Section Joint.
     - apply IH; assumption.
   Qed.
 End Joint.
+
+(* ---------------------------------------------------------------- (5) histories on shared arrays *)
+Section HistoryProofs.
+  Context {S Out : Type}.
+  Lemma history_independent (h : list (call (S := S) (Out := Out))) s :
+    Forall read_only h -> run_history h s = map (fun c => fst (c s)) h.
+  Proof.
+    intros H. induction H as [| c r Hc Hr IH]; [reflexivity |]. cbn [run_history map]. rewrite (Hc s), IH. reflexivity.
+  Qed.
+End HistoryProofs.
+
+Section ModuleHistory.
+  Context {T : Type} (OP : ops T) (proj : T * T -> T * T).
+  Lemma module_call_read_only c : is_module_call OP proj c -> read_only c.
+  Proof. intros (a & [-> | [-> | [-> | [-> | (fill & ->)]]]]) s; reflexivity. Qed.
+
+  (* any sequence of the five modules (any areas, any repetitions) on the same arrays: every call returns what it returns
+     on the untouched arrays *)
+  Lemma module_history h s : Forall (is_module_call OP proj) h -> run_history h s = map (fun c => fst (c s)) h.
+  Proof.
+    intros H. apply history_independent. eapply Forall_impl; [| exact H]. intros c. apply module_call_read_only.
+  Qed.
+End ModuleHistory.
+
+(* ---------------------------------------------------------------- (6) layout: flatten in C order, reshape in C order *)
+Section LayoutProofs.
+  Context {A B : Type}.
+  Lemma reshape_concat (w : nat) (m : list (list B)) : Forall (fun r => length r = w) m -> reshape_C (length m) w (concat m) = m.
+  Proof.
+    intros H. induction H as [| r m Hr Hm IH]; [reflexivity |]. cbn [length reshape_C concat].
+    assert (E1 : firstn w (r ++ concat m) = r)
+      by (rewrite <- Hr; rewrite firstn_app, Nat.sub_diag, firstn_all; cbn; apply app_nil_r).
+    assert (E2 : skipn w (r ++ concat m) = concat m)
+      by (rewrite <- Hr; rewrite skipn_app, Nat.sub_diag, skipn_all; reflexivity).
+    rewrite E1, E2, IH. reflexivity.
+  Qed.
+
+  Lemma flat_apply_pointwise (f : A -> B) (w : nat) (m : list (list A)) :
+    Forall (fun r => length r = w) m -> flat_apply f ravel_C w m = map (map f) m.
+  Proof.
+    intros H. unfold flat_apply, ravel_C. rewrite concat_map. rewrite <- (map_length (map f) m).
+    apply reshape_concat. rewrite Forall_map. eapply Forall_impl; [| exact H]. intros r Hr. rewrite map_length. exact Hr.
+  Qed.
+End LayoutProofs.
